@@ -661,7 +661,183 @@ func c16impl(c *core.Ctx, im *ssa.Function) {
 	if _, isMap := chans[0].Type().Underlying().(*types.Chan).Elem().Underlying().(*types.Map); isMap {
 		ok, detail := c16ordered(p, im, producer, workerFn, list, fParam, binding)
 		c.Check(ok, "R1", name+"/index-round-trip", p.Pos(im.Pos()), detail, detail)
+	} else if _, isSt := chans[0].Type().Underlying().(*types.Chan).Elem().Underlying().(*types.Struct); isSt {
+		// jobs and results are {index, value} structs
+		ok, detail := c16orderedStruct(p, im, producer, workerFn, list, fParam, binding)
+		c.Check(ok, "R1", name+"/index-round-trip", p.Pos(im.Pos()), detail, detail)
 	}
+}
+
+// c16lit: v is a struct value built field by field in a local cell (composite literal) and loaded; returns the value
+// stored into each field.
+func c16lit(v ssa.Value) map[int]ssa.Value {
+	ld, ok := core.Unwrap(v).(*ssa.UnOp)
+	if !ok {
+		return nil
+	}
+	al, ok := ld.X.(*ssa.Alloc)
+	if !ok {
+		return nil
+	}
+	out := map[int]ssa.Value{}
+	for _, r := range *al.Referrers() {
+		if fa, isFA := r.(*ssa.FieldAddr); isFA {
+			for _, st := range core.Stores(fa) {
+				out[fa.Field] = st.Val
+			}
+		}
+	}
+	return out
+}
+
+// c16fieldRead: v reads field #k of a struct; holder is the struct value read from (a cell holding one stored value is
+// replaced by that value).
+func c16fieldRead(v ssa.Value) (holder ssa.Value, k int, ok bool) {
+	switch x := core.Resolve(v).(type) {
+	case *ssa.Field:
+		return core.Resolve(x.X), x.Field, true
+	case *ssa.UnOp:
+		if fa, isFA := x.X.(*ssa.FieldAddr); isFA {
+			h := ssa.Value(fa.X)
+			if al, isAl := fa.X.(*ssa.Alloc); isAl {
+				if st := core.Stores(al); len(st) == 1 {
+					h = core.Resolve(st[0].Val)
+				}
+			}
+			return h, fa.Field, true
+		}
+	}
+	return nil, 0, false
+}
+
+// c16keyField: the index of the only int-typed field of a two-field struct type (the element index), and of the other.
+func c16keyField(t types.Type) (key, val int, ok bool) {
+	st, isSt := t.Underlying().(*types.Struct)
+	if !isSt || st.NumFields() != 2 {
+		return 0, 0, false
+	}
+	key = -1
+	for i := 0; i < 2; i++ {
+		if b, isB := st.Field(i).Type().Underlying().(*types.Basic); isB && b.Kind() == types.Int {
+			if key >= 0 {
+				return 0, 0, false
+			}
+			key = i
+		}
+	}
+	if key < 0 {
+		return 0, 0, false
+	}
+	return key, 1 - key, true
+}
+
+// c16orderedStruct is the index round trip for {index, value} carriers.
+func c16orderedStruct(p *core.Prog, im, producer, workerFn *ssa.Function, list, fParam *ssa.Parameter, binding func(*ssa.Function, ssa.Value) ssa.Value) (bool, string) {
+	received := func(v ssa.Value) bool {
+		v = core.Resolve(v)
+		if ex, isE := v.(*ssa.Extract); isE && ex.Index == 0 {
+			v = ex.Tuple
+		}
+		u, isU := v.(*ssa.UnOp)
+		return isU && u.Op == token.ARROW
+	}
+	// producer: {index: i, value: list[i]}
+	okP := false
+	core.Instrs(producer, func(ins ssa.Instruction) {
+		snd, ok := ins.(*ssa.Send)
+		if !ok {
+			return
+		}
+		lit := c16lit(snd.X)
+		k, v, okK := c16keyField(snd.X.Type())
+		if lit == nil || !okK || lit[k] == nil || lit[v] == nil {
+			return
+		}
+		if ld, isLd := core.Resolve(lit[v]).(*ssa.UnOp); isLd {
+			if ia, isIA := ld.X.(*ssa.IndexAddr); isIA && ia.Index == core.Resolve(lit[k]) && ascendingIndex(ia.Index) && binding(producer, ia.X) == ssa.Value(list) {
+				okP = true
+			}
+		}
+	})
+	if !okP {
+		return false, "jobs are not tagged with the index of their element in the input list"
+	}
+	// worker: {index: job.index, value: f(job.value)}
+	okW := false
+	core.Instrs(workerFn, func(ins ssa.Instruction) {
+		snd, ok := ins.(*ssa.Send)
+		if !ok {
+			return
+		}
+		lit := c16lit(snd.X)
+		k, v, okK := c16keyField(snd.X.Type())
+		if lit == nil || !okK || lit[k] == nil || lit[v] == nil {
+			return
+		}
+		hk, fk, ok1 := c16fieldRead(lit[k])
+		call, isC := core.Resolve(lit[v]).(*ssa.Call)
+		if !ok1 || !isC || len(call.Call.Args) != 1 || !received(hk) {
+			return
+		}
+		hv, fv, ok2 := c16fieldRead(call.Call.Args[0])
+		jk, jv, okJ := c16keyField(hk.Type())
+		if ok2 && okJ && hv == hk && fk == jk && fv == jv {
+			okW = true
+		}
+	})
+	if !okW {
+		return false, "a worker does not send f(element) under the index it received with that element"
+	}
+	// collector: byIndex[r.index] = r.value (then slot i = byIndex[i]), or slot r.index = r.value directly
+	okC1, okC2 := false, false
+	var collected []core.Leaf
+	fromResult := func(kv, vv ssa.Value) bool {
+		hk, fk, ok1 := c16fieldRead(kv)
+		hv, fv, ok2 := c16fieldRead(vv)
+		if !ok1 || !ok2 || hk != hv || !received(hk) {
+			return false
+		}
+		jk, jv, okJ := c16keyField(hk.Type())
+		return okJ && fk == jk && fv == jv
+	}
+	for _, fd := range core.DeepFind(p, im, func(ins ssa.Instruction) bool {
+		switch x := ins.(type) {
+		case *ssa.MapUpdate:
+			return fromResult(x.Key, x.Value)
+		case *ssa.Store:
+			ia, isIA := x.Addr.(*ssa.IndexAddr)
+			return isIA && fromResult(ia.Index, x.Val)
+		}
+		return false
+	}) {
+		okC1 = true
+		if mu, isMU := fd.Ins.(*ssa.MapUpdate); isMU {
+			collected = append(collected, core.Origins(p, mu.Map, fd.Stack)...)
+		} else {
+			okC2 = true // written straight into its slot
+		}
+	}
+	for _, fd := range core.DeepFind(p, im, func(ins ssa.Instruction) bool {
+		x, isSt := ins.(*ssa.Store)
+		if !isSt {
+			return false
+		}
+		ia, isIA := x.Addr.(*ssa.IndexAddr)
+		lk, isLk := x.Val.(*ssa.Lookup)
+		return isIA && isLk && ia.Index == lk.Index && !lk.CommaOk
+	}) {
+		for _, src := range core.Origins(p, fd.Ins.(*ssa.Store).Val.(*ssa.Lookup).X, fd.Stack) {
+			for _, cl := range collected {
+				if src.Val == cl.Val {
+					okC2 = true
+				}
+			}
+		}
+	}
+	if !okC1 || !okC2 {
+		return false, "results are not re-assembled by index (collected under their index and slot i filled from index i): output order would follow arrival order"
+	}
+	return true, "job index = element index → result index = job index → slot i = result of index i"
 }
 
 func ascendingFromZero(v ssa.Value) bool {
